@@ -1,5 +1,7 @@
 import OrdModel.Proofs.Batch
+import OrdModel.Proofs.BatchCommit
 import OrdModel.Proofs.IndexInslocAssign
+import OrdModel.Theorems.C20
 /-!
 # C21 — batch inscribing produces exactly the inscriptions and locations it reports
 
@@ -20,9 +22,24 @@ output the runestone's pointer and the report name (`c21_rune_output`).
 Hypothesis `hpos` (every per-entry postage is positive) is implied by acceptance: the planner
 rejects a reveal with a dust output (`"commit transaction output would be dust"`).
 
+Clause "the commit transaction spends no other inscribed or runic output" (second part of this
+file, namespace `Ord.BatchCommit`; model `OrdModel/Wallet/BatchCommit.lean` = the satpoint
+selection and the `for` loop over `wallet_inscriptions` in front of the commit, tied to the real
+command by the correspondence line `batch.guard`; helper lemmas `OrdModel/Proofs/BatchCommit.lean`):
+`c21_commit_guard_sound` (an accepted satpoint shares its output with no other inscribed sat of
+the wallet, and is itself inscribed exactly when `reinscribe` is set), `c21_auto_satpoint_cardinal`
+(an automatically chosen satpoint is the first sat of the first utxo with positive value that is
+not inscribed, locked or runic), `c21_commit_spends_no_foreign_inscription` (composition with the
+CONCRETE builder model through C20's `c20_inputs_cardinal`: the planner passes the same maps to
+`TransactionBuilder::new`, so every commit input is the satpoint's output or a utxo that is not
+inscribed, runic or locked; no inscribed sat of the wallet other than the satpoint itself is in a
+spent output), `c21_guard_needed` (the second `bail!` of the loop is necessary: without it under
+`reinscribe` the builder accepts a commit that spends a foreign inscription).
+
 Not proved here (checked by the oracle lines on the real index every run, see notes/C21.md):
-inscription ids `(reveal, i)` (envelope order), the commit transaction's inputs (C20's
-`c20_inputs_cardinal` applies to the `TransactionBuilder` call), the rune's creation (C09).
+inscription ids `(reveal, i)` (envelope order), the rune's creation (C09).  An EXPLICIT satpoint's
+own output is not examined by the code for runes or locks (only for inscriptions), hence "no
+*other*" in the clause; the generator names cardinal outputs or wallet inscriptions only.
 -/
 namespace Ord.Batch
 
@@ -279,3 +296,159 @@ example : ({ exShared with mode := .satPoints }).reported 2 = (4, 0) := by decid
 example : ∀ v ∈ exShared.entries, 0 < v := by decide
 
 end Ord.Batch
+
+/-! # The commit guard: no other inscribed or runic output is spent -/
+namespace Ord.BatchCommit
+open Ord.Builder (Env Script Target Tx Request build)
+
+variable {α : Type} [DecidableEq α]
+
+/-- **(a) The guard is sound.**  If the planner gets past
+`if self.reinscribe && !reinscription { bail!(..) }` with satpoint `s`, then every inscribed sat
+of the wallet that lies in `s`'s output is `s` itself; the output is inscribed (equivalently: `s`
+is) exactly when `reinscribe` was set; and the local `reinscription` says so. -/
+theorem c21_commit_guard_sound (v : View α) (reinscribe : Bool) (explicit : Option (α × Nat))
+    (s : α × Nat) (r : Bool) (h : commitGuard v reinscribe explicit = .ok (s, r)) :
+    (∀ sp ∈ v.inscriptions, sp.1 = s.1 → sp = s) ∧
+      ((∃ sp ∈ v.inscriptions, sp.1 = s.1) → reinscribe = true) ∧
+      (reinscribe = true → s ∈ v.inscriptions) ∧
+      (r = true ↔ s ∈ v.inscriptions) := by
+  obtain ⟨_, hg, hre⟩ := commitGuard_ok h
+  obtain ⟨h1, h2, h3⟩ := guardLoop_ok reinscribe s v.inscriptions false r hg
+  have hr : r = true ↔ s ∈ v.inscriptions := by rw [h2]; simp
+  refine ⟨h1, ?_, fun hx => hr.1 (hre hx), hr⟩
+  rintro ⟨sp, hsp, hop⟩
+  exact h3 (h1 sp hsp hop ▸ hsp)
+
+/-- **(b) An automatically selected satpoint is cardinal.**  Without an explicit satpoint the
+accepted satpoint is offset 0 of the FIRST utxo (in the map's order) that has positive value and
+is not inscribed, not locked and not runic; in particular no inscribed sat of the wallet lies in
+its output, so `reinscribe` cannot have been set and `reinscription` is false. -/
+theorem c21_auto_satpoint_cardinal (v : View α) (reinscribe : Bool) (s : α × Nat) (r : Bool)
+    (h : commitGuard v reinscribe none = .ok (s, r)) :
+    s.2 = 0 ∧
+      (∃ pre u post, v.utxos = pre ++ u :: post ∧ u.op = s.1 ∧ 0 < u.value ∧
+        u.locked = false ∧ u.runic = false ∧ (∀ x ∈ pre, isCandidate v x = false)) ∧
+      (∀ sp ∈ v.inscriptions, sp.1 ≠ s.1) ∧ reinscribe = false ∧ r = false := by
+  obtain ⟨hs, _, _⟩ := commitGuard_ok h
+  obtain ⟨u, hf, rfl⟩ := selectSatpoint_auto hs
+  obtain ⟨hc, pre, post, hsplit, hpre⟩ := List.find?_eq_some_iff_append.1 hf
+  simp only [isCandidate, Bool.and_eq_true, decide_eq_true_eq, Bool.not_eq_true'] at hc
+  obtain ⟨⟨⟨hv, hi⟩, hl⟩, hru⟩ := hc
+  have hnone : ∀ sp ∈ v.inscriptions, sp.1 ≠ u.op := by
+    intro sp hsp hop
+    have := (inscribedOutput_iff v.inscriptions u.op).2 ⟨sp, hsp, hop⟩
+    rw [hi] at this
+    exact Bool.false_ne_true this
+  obtain ⟨_, h2, h3, h4⟩ := c21_commit_guard_sound v reinscribe none (u.op, 0) r h
+  have hnot : ¬ (u.op, 0) ∈ v.inscriptions := fun hm => hnone _ hm rfl
+  refine ⟨rfl, ⟨pre, u, post, hsplit, rfl, hv, hl, hru, fun x hx => by simpa using hpre x hx⟩,
+    hnone, ?_, ?_⟩
+  · cases reinscribe with
+    | false => rfl
+    | true => exact absurd (h3 rfl) hnot
+  · cases r with
+    | false => rfl
+    | true => exact absurd (h4.1 rfl) hnot
+
+/-- **(c) The commit spends no foreign inscription** (composition with the concrete builder
+model, `Ord.Builder.build` = `TransactionBuilder::build_transaction`, through C20's
+`c20_inputs_cardinal`; nothing is abstracted: `View.toBuilder` is the identity on the maps and
+sets the planner hands to `TransactionBuilder::new`).  For every fee function, dust function,
+recipient/change scripts and target: if the guard accepts `s` and the builder returns the commit
+`tx`, then every input of `tx` is `s`'s outpoint or a utxo of the wallet that is not inscribed,
+not locked and not runic; hence an inscribed sat of the wallet that lies in a spent output is `s`
+itself; and when the satpoint was chosen automatically no inscribed, locked or runic output is
+spent at all. -/
+theorem c21_commit_spends_no_foreign_inscription (env : Env) (v : View Nat) (reinscribe : Bool)
+    (explicit : Option (Nat × Nat)) (s : Nat × Nat) (r : Bool) (rcp c0 c1 : Script) (t : Target)
+    (tx : Tx) (hg : commitGuard v reinscribe explicit = .ok (s, r))
+    (hb : build env v.toBuilder
+      { outgoing := s, recipient := rcp, change0 := c0, change1 := c1, target := t } = .ok tx) :
+    (∀ op ∈ tx.inputs, op = s.1 ∨
+      ((∃ u ∈ v.utxos, u.op = op) ∧ inscribedOutput v.inscriptions op = false ∧
+        ∀ u ∈ v.utxos, u.op = op → u.locked = false ∧ u.runic = false)) ∧
+      (∀ sp ∈ v.inscriptions, sp.1 ∈ tx.inputs → sp = s) ∧
+      (explicit = none → ∀ op ∈ tx.inputs, inscribedOutput v.inscriptions op = false ∧
+        ∃ u ∈ v.utxos, u.op = op ∧ u.locked = false ∧ u.runic = false) := by
+  have hC := Ord.Builder.c20_inputs_cardinal env v.toBuilder _ tx hb
+  have h1 : ∀ op ∈ tx.inputs, op = s.1 ∨
+      ((∃ u ∈ v.utxos, u.op = op) ∧ inscribedOutput v.inscriptions op = false ∧
+        ∀ u ∈ v.utxos, u.op = op → u.locked = false ∧ u.runic = false) := by
+    intro op hop
+    rcases hC op hop with h | ⟨hl, hc⟩
+    · exact Or.inl h
+    · obtain ⟨hi, hlr⟩ := isCardinal_toBuilder v op hc
+      exact Or.inr ⟨lookup_map_isSome v.utxos op hl, hi, hlr⟩
+  obtain ⟨ha, _, _, _⟩ := c21_commit_guard_sound v reinscribe explicit s r hg
+  refine ⟨h1, ?_, ?_⟩
+  · intro sp hsp hin
+    rcases h1 sp.1 hin with h | ⟨_, hi, _⟩
+    · exact ha sp hsp h
+    · have := (inscribedOutput_iff v.inscriptions sp.1).2 ⟨sp, hsp, rfl⟩
+      rw [hi] at this
+      exact absurd this Bool.false_ne_true
+  · rintro rfl op hop
+    obtain ⟨_, ⟨pre, u, post, hsplit, huop, _, hl, hru, _⟩, hnone, _, _⟩ :=
+      c21_auto_satpoint_cardinal v reinscribe s r hg
+    have hu : u ∈ v.utxos := by rw [hsplit]; simp
+    rcases h1 op hop with h | ⟨⟨u', hu', hop'⟩, hi, hlr⟩
+    · subst h
+      refine ⟨?_, u, hu, huop, hl, hru⟩
+      cases hio : inscribedOutput v.inscriptions s.1 with
+      | false => rfl
+      | true =>
+        obtain ⟨sp, hsp, hop'⟩ := (inscribedOutput_iff v.inscriptions s.1).1 hio
+        exact absurd hop' (hnone sp hsp)
+    · exact ⟨hi, u', hu', hop', (hlr u' hu' hop').1, (hlr u' hu' hop').2⟩
+
+/-! ## Non-vacuity, and the guard's second `bail!` is needed -/
+
+/-- a wallet with two inscribed sats in one 20 000 sat output (what a `shared-output` batch
+leaves behind), one inscribed sat alone in an output, and cardinals (the first one locked) -/
+def exWallet : View Nat :=
+  { utxos := [⟨0, 20000, false, false⟩, ⟨1, 10000, false, false⟩, ⟨2, 0, false, false⟩,
+      ⟨3, 50000, true, false⟩, ⟨4, 40000, false, true⟩, ⟨5, 100000, false, false⟩,
+      ⟨6, 60000, false, false⟩]
+    inscriptions := [(0, 0), (0, 5000), (1, 3000)] }
+
+/-- the guard passes with a reinscription … -/
+example : commitGuard exWallet true (some (1, 3000)) = .ok ((1, 3000), true) := by decide
+/-- … refuses when another inscription shares the output (the loop meets `(0, 0)` first) … -/
+example : commitGuard exWallet true (some (0, 5000)) = .error (.alreadyInscribed (0, 0)) := by decide
+/-- … in the other order the loop passes the sat itself and bails at the next key … -/
+example : commitGuard exWallet true (some (0, 0)) = .error (.alreadyInscribed (0, 5000)) := by decide
+example : commitGuard exWallet false (some (0, 0)) = .error (.alreadyInscribed (0, 0)) := by decide
+example : commitGuard exWallet false (some (1, 0)) = .error (.alreadyInscribed (1, 3000)) := by decide
+/-- … an uninscribed sat is no reinscription … -/
+example : commitGuard exWallet true (some (5, 7)) = .error .notAReinscription := by decide
+example : commitGuard exWallet true none = .error .notAReinscription := by decide
+/-- … the automatic choice skips inscribed, empty, locked and runic outputs … -/
+example : commitGuard exWallet false none = .ok ((5, 0), false) := by decide
+example : commitGuard { exWallet with utxos := exWallet.utxos.take 5 } false none = .error .noCardinals := by
+  decide
+/-- … and the composed theorem's hypotheses hold on a commit that needs a second input. -/
+example : build (Ord.Builder.envR 1 1) exWallet.toBuilder
+    { outgoing := (1, 3000), recipient := Ord.Builder.p2tr 0, change0 := Ord.Builder.p2tr 1,
+      change1 := Ord.Builder.p2tr 2, target := .value 10500 }
+    = .ok { inputs := [1, 6], outputs := [(Ord.Builder.p2tr 2, 3000), (Ord.Builder.p2tr 0, 10500),
+        (Ord.Builder.p2tr 1, 56245)] } := by decide
+
+/-- **The second `bail!` is needed** (the seeded variant
+`if !self.reinscribe && inscribed_satpoint.outpoint == satpoint.outpoint`): asked to reinscribe
+the sat at offset 5000 of an output that also carries an inscription at offset 0, the real guard
+refuses, the variant accepts, and the builder then builds a commit that spends that output —
+the foreign inscription at `(0, 0)` is moved by the commit (the builder's own
+`UtxoContainsAdditionalInscriptions` check only looks at inscriptions at higher offsets). -/
+theorem c21_guard_needed :
+    commitGuard exWallet true (some (0, 5000)) = .error (.alreadyInscribed (0, 0)) ∧
+      commitGuardSkipping exWallet true (some (0, 5000)) = .ok ((0, 5000), true) ∧
+      ∃ tx, build (Ord.Builder.envR 1 1) exWallet.toBuilder
+          { outgoing := (0, 5000), recipient := Ord.Builder.p2tr 0, change0 := Ord.Builder.p2tr 1,
+            change1 := Ord.Builder.p2tr 2, target := .value 10500 } = .ok tx ∧
+        ∃ sp ∈ exWallet.inscriptions, sp.1 ∈ tx.inputs ∧ sp ≠ (0, 5000) := by
+  refine ⟨by decide, by decide,
+    { inputs := [0], outputs := [(Ord.Builder.p2tr 2, 5000), (Ord.Builder.p2tr 0, 10500),
+        (Ord.Builder.p2tr 1, 4303)] }, by decide, (0, 0), by decide, by decide, by decide⟩
+
+end Ord.BatchCommit
